@@ -46,6 +46,27 @@ def handle (line : Json) : Json :=
     let iv := str? impl "dest"
     Json.mkObj [("model", Json.mkObj [("dest", optStr m)]), ("path", if m.isSome then "sso/found" else "sso/refused"),
       ("spec_model", specLoc eps b m), ("spec_impl", specLoc eps b iv)]
+  | "slo_transport" =>
+    -- what the library itself transmitted: every call must go to a registered SOAP single-logout location of the
+    -- target and must not follow HTTP redirects (a redirect target is not in the metadata)
+    let eps := (parseEps c "eps").getD []
+    let soapB := "urn:oasis:names:tc:SAML:2.0:bindings:SOAP"
+    let calls := arrD impl "calls"
+    let ok := calls.all (fun cl =>
+      !(boolD cl "follow") && eps.any (fun e => decide (e.binding = soapB) && decide (e.location = strD cl "url")))
+    Json.mkObj [("model", Json.mkObj [("r", "done")]), ("path", Json.str ("transport/" ++ toString calls.length)),
+      ("spec_model", true), ("spec_impl", ok)]
+  | "negotiate" =>
+    let eps := parseEps c "eps"
+    let toTry := strList c "to_try"
+    let m := negotiate eps toTry
+    let toJ : Option (String × String) → Json := fun
+      | none => Json.mkObj [("r", "refused")]
+      | some (b, d) => Json.mkObj [("r", "ok"), ("binding", Json.str b), ("dest", Json.str d)]
+    let iv : Option (String × String) :=
+      if strD impl "r" == "ok" then some (strD impl "binding", strD impl "dest") else none
+    Json.mkObj [("model", toJ m), ("path", Json.str (if m.isSome then "negotiate/found" else "negotiate/refused")),
+      ("spec_model", specNeg eps toTry m), ("spec_impl", specNeg eps toTry iv)]
   | "slo" =>
     let eps := (parseEps c "eps").getD []
     let m := sloChoice truthyS eps (strList c "preferred") (str? c "expected")
